@@ -1,0 +1,71 @@
+//go:build verif
+// +build verif
+
+package keystore
+
+import (
+	"crypto/sha256"
+)
+
+// VerifSecretView is a read-only snapshot of the secret-bearing fields of one
+// AddrManager, used by the out-of-tree runtime verification harness.
+type VerifSecretView struct {
+	Name                 string
+	Unlocked             bool
+	MasterKeyPriv        [32]byte // copy of masterKeyPriv.Key
+	MasterKeyPrivValid   bool     // sha256(masterKeyPriv.Key) == masterKeyPriv.Parameters.Digest
+	CryptoKeyPriv        []byte   // copy of cryptoKeyPriv bytes
+	CryptoKeyPrivEnc     []byte   // copy of cryptoKeyPrivEncrypted
+	HashedPrivPassphrase [64]byte
+	PrivPassphraseSalt   [32]byte
+	AcctKeyPriv          bool // acctInfo.acctKeyPriv != nil
+	ExternalBranchPriv   bool
+	InternalBranchPriv   bool
+	AddrPrivKeys         [][]byte // D of every per-address private key that is present
+	Addrs                int
+	NextExternalIndex    uint32
+	NextInternalIndex    uint32
+}
+
+// VerifInspect returns the manager-level unlocked flag and one view per
+// keystore, taken under the locks the package itself uses.
+func (kmc *KeystoreManagerForPoC) VerifInspect() (bool, []VerifSecretView) {
+	kmc.mu.Lock()
+	defer kmc.mu.Unlock()
+	views := make([]VerifSecretView, 0, len(kmc.managedKeystores))
+	for _, a := range kmc.managedKeystores {
+		a.mu.Lock()
+		v := VerifSecretView{
+			Name:                 a.keystoreName,
+			Unlocked:             a.unlocked,
+			HashedPrivPassphrase: a.hashedPrivPassphrase,
+			PrivPassphraseSalt:   a.privPassphraseSalt,
+			Addrs:                len(a.addrs),
+		}
+		if a.masterKeyPriv != nil && a.masterKeyPriv.Key != nil {
+			copy(v.MasterKeyPriv[:], a.masterKeyPriv.Key[:])
+			v.MasterKeyPrivValid = sha256.Sum256(a.masterKeyPriv.Key[:]) == a.masterKeyPriv.Parameters.Digest
+		}
+		if a.cryptoKeyPriv != nil {
+			v.CryptoKeyPriv = append([]byte(nil), a.cryptoKeyPriv.Bytes()...)
+		}
+		v.CryptoKeyPrivEnc = append([]byte(nil), a.cryptoKeyPrivEncrypted...)
+		if a.acctInfo != nil {
+			v.AcctKeyPriv = a.acctInfo.acctKeyPriv != nil
+		}
+		if a.branchInfo != nil {
+			v.ExternalBranchPriv = a.branchInfo.externalBranchPriv != nil
+			v.InternalBranchPriv = a.branchInfo.internalBranchPriv != nil
+			v.NextExternalIndex = a.branchInfo.nextExternalIndex
+			v.NextInternalIndex = a.branchInfo.nextInternalIndex
+		}
+		for _, ma := range a.addrs {
+			if ma.privKey != nil && ma.privKey.D != nil {
+				v.AddrPrivKeys = append(v.AddrPrivKeys, ma.privKey.D.Bytes())
+			}
+		}
+		a.mu.Unlock()
+		views = append(views, v)
+	}
+	return kmc.unlocked, views
+}
